@@ -4,6 +4,7 @@ package db
 
 import (
 	"context"
+	"regexp"
 	"encoding/json"
 	"errors"
 	"fmt"
@@ -89,7 +90,7 @@ func c11Setup(t testing.TB) *c11World {
 	if err := coll.dataStore.SetRaw(ctx, "ext1", 0, nil, []byte(`{"channels":["A"],"ext":true}`)); err != nil {
 		t.Fatalf("setup ext1: %v", err)
 	}
-	v.db.WaitForPendingChanges(t)
+	v.waitFeed()
 	return w
 }
 
@@ -100,8 +101,12 @@ type c11Op struct {
 }
 
 func c11Ops() []c11Op {
-	put := func(id string, body Body) func(w *c11World) error {
+	put := func(id string, bodyJSON string) func(w *c11World) error {
 		return func(w *c11World) error {
+			var body Body // rebuilt for every run: Put consumes the map it is given
+			if err := json.Unmarshal([]byte(bodyJSON), &body); err != nil {
+				panic(err)
+			}
 			_, _, err := w.v.coll.Put(w.v.ctx, id, body)
 			return err
 		}
@@ -115,7 +120,7 @@ func c11Ops() []c11Op {
 		}
 	}
 	return []c11Op{
-		{Name: "doc-create", Run: put("n1", Body{"channels": []string{"A"}, "v": 1})},
+		{Name: "doc-create", Run: put("n1", `{"channels":["A"],"v":1}`)},
 		{Name: "doc-update", Run: upd(func(w *c11World, b Body) {})},
 		{Name: "doc-update-move-and-grant", Run: upd(func(w *c11World, b Body) {
 			b["channels"] = []string{"B"}
@@ -134,7 +139,7 @@ func c11Ops() []c11Op {
 			_, _, err = w.v.coll.DeleteDoc(w.v.ctx, "g1", DocVersion{RevTreeID: doc.GetRevTreeID()})
 			return err
 		}},
-		{Name: "doc-create-with-attachment", Run: put("n2", Body{"channels": []string{"A"}, BodyAttachments: map[string]any{"b.txt": map[string]any{"data": "Ynl0ZXM="}}})},
+		{Name: "doc-create-with-attachment", Run: put("n2", `{"channels":["A"],"_attachments":{"b.txt":{"data":"Ynl0ZXM="}}}`)},
 		{Name: "doc-update-drop-attachment", Run: func(w *c11World) error {
 			_, _, err := w.v.coll.Put(w.v.ctx, "datt", Body{BodyRev: w.revDatt, "channels": []string{"A"}, "v": 2})
 			return err
@@ -153,14 +158,17 @@ func c11Ops() []c11Op {
 		}},
 		{Name: "reject-sync-throw", Reject: true, Run: upd(func(w *c11World, b Body) { b["reject"] = true })},
 		{Name: "reject-require-access", Reject: true, Run: func(w *c11World) error {
-			u, _ := w.v.db.Authenticator(w.v.ctx).GetUser("alice")
+			u, err := w.v.db.Authenticator(w.v.ctx).GetUser("alice")
+			if err != nil || u == nil {
+				return fmt.Errorf("could not load requesting user: %v", err)
+			}
 			c := *w.v.coll
 			c.user = u
-			_, _, err := c.Put(w.v.ctx, "d1", Body{BodyRev: w.revD1, "channels": []string{"A"}, "need": "ZZZ"})
+			_, _, err = c.Put(w.v.ctx, "d1", Body{BodyRev: w.revD1, "channels": []string{"A"}, "need": "ZZZ"})
 			return err
 		}},
-		{Name: "reject-conflict", Reject: true, Run: put("d1", Body{BodyRev: "1-0000", "channels": []string{"B"}})},
-		{Name: "reject-reserved-property", Reject: true, Run: put("n3", Body{"channels": []string{"A"}, "_purged": true})},
+		{Name: "reject-conflict", Reject: true, Run: put("d1", `{"_rev":"1-0000","channels":["B"]}`)},
+		{Name: "reject-reserved-property", Reject: true, Run: put("n3", `{"channels":["A"],"_purged":true}`)},
 		{Name: "user-create", Run: func(w *c11World) error {
 			_, _, err := w.v.db.UpdatePrincipal(w.v.ctx, &auth.PrincipalConfig{Name: base.Ptr("bob"), Password: base.Ptr("letmein"), ExplicitChannels: base.SetOf("B"), ExplicitRoleNames: base.SetOf("r1")}, true, false)
 			return err
@@ -189,6 +197,7 @@ func c11Ops() []c11Op {
 			return err
 		}},
 		{Name: "role-delete", Run: func(w *c11World) error { return w.v.db.DeleteRole(w.v.ctx, "r1", false) }},
+		{Name: "role-purge", Run: func(w *c11World) error { return w.v.db.DeleteRole(w.v.ctx, "r1", true) }},
 		{Name: "session-create", Run: func(w *c11World) error {
 			a := w.v.db.Authenticator(w.v.ctx)
 			u, err := a.GetUser("carol")
@@ -333,8 +342,13 @@ func c11Snapshot(w *c11World) string {
 		out["session:"+label] = s != nil && err == nil
 	}
 	b, _ := json.Marshal(out)
-	return string(b)
+	// Revision digests are not compared: a tombstone written on a CAS retry gets a different digest than one written
+	// first time (Put removes _deleted from the body after computing the first id). Generations, parents and
+	// flags are compared.
+	return c11RevDigest.ReplaceAllString(string(b), "$1-#")
 }
+
+var c11RevDigest = regexp.MustCompile(`\b([0-9]+)-[0-9a-f]{32}\b`)
 
 func (w *c11World) principalSeqs(into map[uint64]string) {
 	a := w.v.db.Authenticator(w.v.ctx)
@@ -362,6 +376,9 @@ type c11Case struct {
 	Op     string     `json:"op"`
 	Faults []c11Fault `json:"faults"`
 }
+
+var c11HasCas = map[string]bool{"WriteCas": true, "Remove": true, "WriteWithXattrs": true, "WriteTombstoneWithXattrs": true,
+	"Update.write": true, "WriteUpdateWithXattrs.write": true, "UpdateXattrs": true, "SubdocInsert": true, "WriteSubDoc": true, "RemoveXattrs": true}
 
 var c11Modes = map[string]vstore.Injection{"error": vstore.ErrBefore, "cas": vstore.CasMismatch, "timeout-not-applied": vstore.TimeoutBefore, "timeout-applied": vstore.TimeoutAfter}
 
@@ -399,7 +416,7 @@ func c11Execute(t testing.TB, op c11Op, faults []c11Fault) c11Run {
 	}
 	run.err = op.Run(w)
 	H.Plan = nil
-	w.v.db.WaitForPendingChanges(t)
+	w.v.waitFeed()
 	for _, rec := range H.Snapshot()[startIdx:] {
 		if rec.Gid == gid {
 			run.log = append(run.log, rec)
@@ -428,10 +445,23 @@ func c11Check(r *vreport.Report, op c11Op, ff c11Run, c c11Case, run c11Run) {
 	site := fmt.Sprintf("%s/at=%s/mode=%s", op.Name, strings.Join(kinds, "+"), strings.Join(modes, "+"))
 	desc := fmt.Sprintf("operation %s with fault(s) %+v (fault-free storage trace: %s)", op.Name, c.Faults, c11TraceString(ff.log))
 	outcome := "error"
+	injectedTimeout := false
+	releaseFaulted := false
+	for _, rec := range run.log {
+		if strings.HasPrefix(rec.Inject, "timeout") {
+			injectedTimeout = true // the storage layer reported an unknown outcome somewhere in this request
+		}
+		if rec.Inject != "" && rec.Op == "AddRaw" && strings.Contains(rec.Key, "unusedSeq") {
+			releaseFaulted = true // the fault hit the very write that gives a sequence back: it cannot be given back
+		}
+	}
+	if releaseFaulted {
+		run.acctViol = nil
+	}
 	switch {
 	case run.err == nil:
 		outcome = "success"
-	case c11IsTimeout(run.err):
+	case c11IsTimeout(run.err) || injectedTimeout:
 		outcome = "timeout"
 	}
 	r.Distinct("outcomes", op.Name+"/"+outcome+"/"+strings.Join(modes, "+"))
@@ -452,7 +482,7 @@ func c11Check(r *vreport.Report, op c11Op, ff c11Run, c c11Case, run c11Run) {
 			r.Violate("C11/timeout-state-neither-before-nor-after/"+site, fmt.Sprintf("%s timed out and left a state that is neither the previous nor the new one: %s", desc, c11Diff(run.after, run.before)), c)
 		}
 	}
-	if outcome == "success" {
+	if outcome == "success" && !injectedTimeout {
 		for fp, d := range run.acctViol {
 			r.Violate(fp+"/"+site, fmt.Sprintf("%s succeeded: %s", desc, d), c)
 		}
@@ -577,6 +607,9 @@ func TestVerifC11(t *testing.T) {
 				rec := f.log[flt.Idx]
 				if !rec.Write && (flt.Mode == "cas" || flt.Mode == "timeout-applied") {
 					skip = true // not applicable to reads
+				}
+				if flt.Mode == "cas" && !c11HasCas[rec.Op] {
+					skip = true // the operation carries no compare-and-swap value
 				}
 				if fi > 0 && c.Faults[0].Mode == "error" {
 					// after a hard error on operation i the request normally ends; a later index may not exist in this run: still run it
